@@ -53,7 +53,7 @@ ASSUMPTIONS = ['math.exp(x) is in [0,1] for x <= 0 (the weight is an input of th
 
 MANIFEST = {
     'text': ('Theorems C06_partition, C06_no_crash, C06_min_bound, C06_min_invariant, C06_max_bound, C06_rule_up, C06_rule_down, '
-             'C06_rule_stay, C06_ema_between, C06_ema_converges, C06_settles hold for every configuration, every history of '
+             'C06_rule_stay, C06_adjust_enabled, C06_ema_between, C06_ema_converges, C06_settles hold for every configuration, every history of '
              'joins/leaves/channel-state changes/node-down hooks/get/put adjustments/open completions/jitter rounds, every '
              'random choice, every heap order and every sequence of smoothed averages of the Gallina transcription of '
              'ApertureBalancerSink; the transcription is run against the real class lock-step on generated histories.'),
